@@ -4,7 +4,7 @@ import tensorflow as tf
 from tf_pwa.data import data_shape, split_generator
 from tf_pwa.variable import SumVar
 
-from .model import Model, register_nll_model
+from .model import Model, grad_hessp_from_hessian, register_nll_model
 
 """
 Custom nll model
@@ -136,6 +136,12 @@ class BaseCustomModel(Model):
             ret = ret + a
             ret_grad = ret_grad + tf.stack(grads)
         return ret, ret_grad
+
+    def grad_hessp_batch(self, p, data, mcdata, weight, mc_weight):
+        # the default Hessian-vector product does not describe a custom likelihood
+        return grad_hessp_from_hessian(
+            self, p, data, mcdata, weight, mc_weight
+        )
 
     def nll_grad_hessian(
         self, data, mcdata, weight=1.0, batch=24000, bg=None, mc_weight=1.0
